@@ -119,6 +119,9 @@ def inject(repo_copy, cfg="kani", with_harnesses=True):
     # 1. container models as a crate module
     _append(g("gneiss-mqtt/src/lib.rs"),
             '\n%s\n#[path = "%s"]\npub(crate) mod kani_models;\n' % (guard, os.path.join(hdir, "kani_models.rs")))
+    #    read-only accessors for configuration structs (used by the gneiss-mqtt-aws harnesses)
+    _append(g("gneiss-mqtt/src/lib.rs"),
+            '\n%s\n#[path = "%s"]\npub mod gv_access;\n' % (guard, os.path.join(hdir, "gv_access.rs")))
     #    protocol.rs: an explicit `use` shadows the `use std::collections::*` glob
     _append(g("gneiss-mqtt/src/protocol.rs"),
             "\n%s\nuse crate::kani_models::{HashMap, HashSet, hash_map};\n" % guard)
